@@ -111,6 +111,10 @@ func runC10(c *Ctx, r *Report) {
 	c10Registration(c, r)
 	// (f) the formula engine's constant folding obeys the same probe discipline
 	borrow(c, r, c19Simplifier, "C19-c", "C10-f", nil, true)
+	okResultLive(c, r, "C10-b/ok-live", "rare/pkg/expressions")
+	c10TableCopy(c, r, "C10-e/table-copy")
+	// (g) both equivalences also hold with several workers: shared compiled stages keep no state
+	c05StagePurity(c, r, "C10-g")
 }
 
 // ---------------------------------------------------------------- (a)
